@@ -117,6 +117,13 @@ class _Sem:
     def release(self, n: int = 1) -> None:
         self.value += n
 
+    def __enter__(self):
+        self.acquire()
+        return self
+
+    def __exit__(self, *a) -> None:
+        self.release()
+
 
 # ------------------------------------------------------------------------------------------------ service
 @dataclass
@@ -311,9 +318,12 @@ def _tname(k: str, c: int) -> str:
 
 
 def run_schedule(scripts: dict[int, list[str]], mx: int, steps: list[tuple]) -> dict:
-    """Force one interleaving onto the real threads.  steps: (k, c, expected_label) with k in L | C | H | X.
-    After the prescribed steps (or at the first divergence = drift) the run is completed with 'first runnable thread'
-    so that the property can be judged on a complete execution; every step taken is recorded."""
+    """Force one interleaving onto the real threads.  steps: (k, c, expected_label[, enabled_after]) with k in
+    L | C | H | X; enabled_after = the threads the spec says can move next.  After every step the park label and the set
+    of runnable real threads are compared with the spec; at the first divergence (= drift) a thread that can move
+    although the spec says it cannot is stepped at once (that is where a broken limit shows), and the run is then
+    completed with 'first runnable thread' so that the property is judged on a complete execution.  Every step taken
+    is recorded."""
     from vf.sched import Blocked, SchedTimeout
 
     trace: list[dict] = []
@@ -333,7 +343,8 @@ def run_schedule(scripts: dict[int, list[str]], mx: int, steps: list[tuple]) -> 
             return lab
 
         try:
-            for i, (k, c, want) in enumerate(steps):
+            for i, st in enumerate(steps):
+                k, c, want = st[:3]
                 if k == "X":
                     if not all_served():
                         drift = {"at": i, "step": [k, c, want], "why": "listener close requested before every connection ended"}
@@ -349,6 +360,16 @@ def run_schedule(scripts: dict[int, list[str]], mx: int, steps: list[tuple]) -> 
                 if got != want:
                     drift = {"at": i, "step": [k, c, want], "why": "park label differs", "label": got}
                     break
+                if len(st) > 3:
+                    real = set(sched.runnable())
+                    extra, missing = sorted(real - set(st[3])), sorted(set(st[3]) - real)
+                    if extra or missing:
+                        drift = {"at": i, "step": [k, c, want], "why": "enabled threads differ", "extra": extra, "missing": missing}
+                        if extra:
+                            n = extra[0]
+                            kk = "L" if n == "loop" else ("C" if n[0] == "c" else "H")
+                            take(kk, 0 if kk == "L" else int(n[1:]))
+                        break
             # completion
             for _ in range(2000):
                 r = sched.runnable()
